@@ -703,6 +703,11 @@ func OpenWith(path, tsFile string, nLog, hLog, cLog appendable.Appendable, opts 
 		t.committedNLogSize = validatedCLogEntry.finalNLogSize
 		t.committedHLogSize = validatedCLogEntry.finalHLogSize
 		t.minOffset = t.root.minOffset()
+
+		// the loaded root is the latest persisted one, exactly like the root left by a flush:
+		// it is what a failed insertion must roll back to (not an empty tree)
+		t.lastSnapRoot = t.root
+		t.lastSnapRootAt = time.Now()
 	}
 
 	metricsBtreeNodesDataBeginOffset.WithLabelValues(t.path).Set(float64(t.minOffset))
